@@ -5,7 +5,7 @@ CONSTANTS
   ConstVals = {0, 1, 2, 46}
   ProbeSeq <- MCProbeSeq
   OpSet = {"Add", "Add3", "Sub", "Sub3", "Neg", "Mul", "Mul3", "MulAcc", "Div", "DivUnchecked", "Inverse", "ToBinary", "FromBinary", "Xor", "Or", "And", "Select", "Lookup2", "IsZero", "Cmp", "AssertIsEqual", "AssertIsDifferent", "AssertIsBoolean", "AssertIsCrumb", "AssertIsLessOrEqual", "PlonkExpr", "PlonkGate"}
-  Derived = FALSE
+  Derived = 0
   Emit = TRUE
 INVARIANT WellFormed
 CHECK_DEADLOCK FALSE
